@@ -24,7 +24,7 @@ def _last_open_case(outdir, shard):
     return last
 
 
-def run_shard_resilient(engine, shard, nshards, seed, tier, outdir, extra, timeout, max_restarts=25):
+def run_shard_resilient(engine, shard, nshards, seed, tier, outdir, extra, timeout, max_restarts=10):
     """Run one shard; when the process dies inside a case (watchdog exit 86/87, abort, signal) put that
     case on the shard's skip list, remember what happened, and run the shard again."""
     incidents = []
@@ -45,7 +45,17 @@ def run_shard_resilient(engine, shard, nshards, seed, tier, outdir, extra, timeo
             f.write(case + "\n")
         with open(os.path.join(outdir, f"{shard}.events.jsonl"), "a") as f:
             f.write(json.dumps({"end": case, "note": "closed by driver after process death"}) + "\n")
-    return r, incidents + [{"rc": r["rc"], "case": None, "stderr": "too many restarts", "fatal": True}]
+    # the shard keeps dying: stop restarting it.  What it had observed up to its last checkpoint is kept (the engine writes
+    # <shard>.partial.json in the summary format); the rest of the shard is inconclusive, the deaths are reported as they are.
+    part = os.path.join(outdir, f"{shard}.partial.json")
+    summ = os.path.join(outdir, f"{shard}.summary.json")
+    if os.path.exists(part):
+        os.replace(part, summ)
+    else:
+        with open(summ, "w") as f:
+            json.dump(D.empty_summary(), f)
+    incidents.append({"rc": 0, "case": f"shard-{shard}", "stderr": "", "abandoned": True})
+    return r, incidents
 
 
 def vh_stage(engine, quick=4, thorough=16, extra=(), timeout_q=1500, timeout_t=7200, name=None, death_is_violation=True, confirm_hangs=False, case_limit_s=None, benign_case=None):
@@ -75,6 +85,8 @@ def vh_stage(engine, quick=4, thorough=16, extra=(), timeout_q=1500, timeout_t=7
 
         def classify(inc):
             env = dict(D.ENV)
+            if inc.get("abandoned"):
+                return ("incon", {"kind": "shard_abandoned_after_repeated_process_deaths", "case": inc["case"]})
             if benign_case is not None and benign_case(inc["case"]):
                 # a stop / death in a step that is not the subject of this property (e.g. compiling the unchanged twin)
                 return ("incon", {"kind": "stopped_outside_the_judged_step", "case": inc["case"], "rc": inc["rc"]})
@@ -91,12 +103,16 @@ def vh_stage(engine, quick=4, thorough=16, extra=(), timeout_q=1500, timeout_t=7
                 return ("incon", {"kind": "watchdog_memory", "case": inc["case"]})
             if death_is_violation:
                 env["VH_CASE_LIMIT_S"] = "600"
-                sig, why = stacksig.crash_signature(replay_cmd(inc["case"]), env, outdir)
+                if inc.get("analyse", True):
+                    sig, why = stacksig.crash_signature(replay_cmd(inc["case"]), env, outdir)
+                else:
+                    sig, why = None, "signature not computed (more than 8 process deaths in this run)"
                 return ("viol", {"kind": "process_death", "engine": engine, "sig": sig, "rc": inc["rc"], "case": inc["case"], "stderr": inc["stderr"][-300:], "note": why})
             return ("incon", {"kind": "process_death", "case": inc["case"], "rc": inc["rc"]})
 
         all_inc = []
         nconf = 0
+        ndeath = 0
         for r, incidents in results:
             for inc in incidents:
                 if inc.get("fatal"):
@@ -104,6 +120,9 @@ def vh_stage(engine, quick=4, thorough=16, extra=(), timeout_q=1500, timeout_t=7
                 if inc["rc"] == 86 and nconf < 12:
                     inc["confirm"] = True
                     nconf += 1
+                if inc["rc"] not in (86, 87) and not inc.get("abandoned"):
+                    ndeath += 1
+                    inc["analyse"] = ndeath <= 8
                 all_inc.append(inc)
         with ThreadPoolExecutor(max_workers=12) as ex:
             for kind, rec in ex.map(classify, all_inc):
